@@ -111,6 +111,7 @@ class Scheduler:
         self.aborting = False
         self.step = 0
         self._code_cache = {}
+        self._error = None
 
     # ------------------------------------------------------------------ API for harness bodies
     def spawn(self, fn, name=None):
@@ -151,7 +152,14 @@ class Scheduler:
             t.result = ("exc", type(e).__name__, str(e)[:200])
         t.state = "done"
         self.ex.results[t.tid] = t.result
-        self.ctl.release()
+        if self.aborting:
+            return
+        # the finishing thread holds the baton: it takes the next scheduling decision itself
+        nxt = self._next()
+        if nxt is None:
+            self.ctl.release()
+        else:
+            nxt.gate.release()
 
     def _global_trace(self, frame, event, arg):
         code = frame.f_code
@@ -186,11 +194,17 @@ class Scheduler:
             t.state = "blocked"
             t.blocked_on = blocked_on
             t.timeout_ok = timeout_ok
-        # switch off tracing while parked
-        self.ctl.release()
-        t.gate.acquire()
-        if self.aborting:
-            raise Abort()
+        # The scheduling decision is taken by the thread that holds the baton (this one); when the decision is
+        # "keep running this thread" (the default choice at most points) no OS-level hand-off happens at all.
+        nxt = self._next()
+        if nxt is not t:
+            if nxt is None:
+                self.ctl.release()  # execution over: wake the controller, stay parked until teardown aborts us
+            else:
+                nxt.gate.release()
+            t.gate.acquire()
+            if self.aborting:
+                raise Abort()
         t.state = "ready"
         t.blocked_on = None
         t.timeout_ok = False
@@ -224,67 +238,79 @@ class Scheduler:
             for t in self.threads:
                 if not t.started:
                     self._start_thread(t)
-            self._loop()
+            nxt = self._next()
+            if nxt is not None:
+                nxt.gate.release()
+                self.ctl.acquire()  # released by whichever thread finds the execution over
+            if self._error is not None:
+                raise self._error
         finally:
             self._teardown()
             CURRENT = None
         return self.ex
 
-    def _loop(self):
+    def _next(self):
+        try:
+            return self._decide()
+        except BaseException as e:  # noqa - e.g. ReplayDivergence; re-raised by run() in the controller
+            self._error = e
+            return None
+
+    def _decide(self):
+        """One scheduling decision, taken by whoever holds the baton (a controlled thread at a scheduling point or at
+        its end, or run() at the start).  Returns the thread to run next, or None when the execution is over."""
         ex = self.ex
-        while True:
-            if all(t.state == "done" for t in self.threads):
-                return
-            run_opts = self._enabled()
-            cur = self.running
-            cur_enabled = cur is not None and any(tid == cur.tid for tid, _ in run_opts)
-            # canonical order: the running thread first if still enabled, then ascending ids, then timeouts
-            opts = []
-            if cur_enabled:
-                opts.append((cur.tid, "run"))
-            opts += [(tid, k) for tid, k in run_opts if not (cur_enabled and tid == cur.tid)]
-            opts += [(t.tid, "timeout") for t in self.threads if t.state == "blocked" and t.timeout_ok]
-            if not opts:
-                ex.outcome = "deadlock"
-                ex.detail = "; ".join(f"{t.name}:{t.state}@{t.last_label}" for t in self.threads if t.state != "done")
-                return
-            i = len(ex.points)
-            c = 0
-            if len(opts) > 1:
-                # only real choice points (more than one option) consume the prefix
-                if i < len(self.prefix):
-                    c = self.prefix[i]
-                    if c >= len(opts):
-                        raise ReplayDivergence(f"choice {c} out of range at point {i} ({len(opts)} options)")
-                ex.points.append(Point(opts, c, cur.tid if cur else None, cur_enabled, cur.last_label if cur else ""))
-                ex.choices.append(c)
-            tid, kind = opts[c]
-            t = self.threads[tid]
-            if kind == "timeout":
-                t.timed_out = True
-                ex.log.append((self.step + 1, tid, "timeout-fired"))
-            # spin detection: same thread, same label, repeatedly, with no other thread stepping in between
-            if self.spin_limit is not None:
-                if cur is not None and cur.tid == tid:
-                    n = t.spin.get(t.last_label, 0) + 1
-                    t.spin[t.last_label] = n
-                    if n > self.spin_limit:
-                        ex.outcome = "spin"
-                        ex.detail = f"{t.name} passed {t.last_label} {n} times with no other thread stepping in between"
-                        return
-                else:
-                    for o in self.threads:
-                        o.spin.clear()
-            self.step += 1
-            ex.steps = self.step
-            ex.trace.append((tid, t.last_label))
-            if self.step > self.horizon:
-                ex.outcome = "horizon"
-                ex.detail = f"more than {self.horizon} steps"
-                return
-            self.running = t
-            t.gate.release()
-            self.ctl.acquire()
+        if all(t.state == "done" for t in self.threads):
+            return None
+        run_opts = self._enabled()
+        cur = self.running
+        cur_enabled = cur is not None and any(tid == cur.tid for tid, _ in run_opts)
+        # canonical order: the running thread first if still enabled, then ascending ids, then timeouts
+        opts = []
+        if cur_enabled:
+            opts.append((cur.tid, "run"))
+        opts += [(tid, k) for tid, k in run_opts if not (cur_enabled and tid == cur.tid)]
+        opts += [(t.tid, "timeout") for t in self.threads if t.state == "blocked" and t.timeout_ok]
+        if not opts:
+            ex.outcome = "deadlock"
+            ex.detail = "; ".join(f"{t.name}:{t.state}@{t.last_label}" for t in self.threads if t.state != "done")
+            return None
+        i = len(ex.points)
+        c = 0
+        if len(opts) > 1:
+            # only real choice points (more than one option) consume the prefix
+            if i < len(self.prefix):
+                c = self.prefix[i]
+                if c >= len(opts):
+                    raise ReplayDivergence(f"choice {c} out of range at point {i} ({len(opts)} options)")
+            ex.points.append(Point(opts, c, cur.tid if cur else None, cur_enabled, cur.last_label if cur else ""))
+            ex.choices.append(c)
+        tid, kind = opts[c]
+        t = self.threads[tid]
+        if kind == "timeout":
+            t.timed_out = True
+            ex.log.append((self.step + 1, tid, "timeout-fired"))
+        # spin detection: same thread, same label, repeatedly, with no other thread stepping in between
+        if self.spin_limit is not None:
+            if cur is not None and cur.tid == tid:
+                n = t.spin.get(t.last_label, 0) + 1
+                t.spin[t.last_label] = n
+                if n > self.spin_limit:
+                    ex.outcome = "spin"
+                    ex.detail = f"{t.name} passed {t.last_label} {n} times with no other thread stepping in between"
+                    return None
+            else:
+                for o in self.threads:
+                    o.spin.clear()
+        self.step += 1
+        ex.steps = self.step
+        ex.trace.append((tid, t.last_label))
+        if self.step > self.horizon:
+            ex.outcome = "horizon"
+            ex.detail = f"more than {self.horizon} steps"
+            return None
+        self.running = t
+        return t
 
     def _teardown(self):
         self.aborting = True
